@@ -61,6 +61,10 @@ Forms == [
   castptr      |-> <<"x", "as", "*", "const", "M", "<", "K", ",", "V", ">">>,
   castref      |-> <<"x", "as", "&", "M", "<", "K", ",", "V", ">">>,
   castarith    |-> <<"x", "as", "u8", "*", "a">>,
+  \* an ASSOCIATED-TYPE BINDING inside generic arguments (`, X = u8` looks like the start of a named format argument):
+  \* `x as &dyn T<B, X = u8>`, `f::<dyn T<A, X = B>>()`
+  castbinding  |-> <<"x", "as", "&", "dyn", "T", "<", "B", ",", "X", "=", "u8", ">">>,
+  turbobinding |-> <<"f", "::", "<", "dyn", "T", "<", "A", ",", "X", "=", "B", ">", ">", "G(">>,
   closure0     |-> <<"|", "|", "x">>,
   closure1     |-> <<"|", "a", "|", "a">>,
   closure2     |-> <<"|", "a", ",", "b", "|", "a", "+", "b">>,
